@@ -276,6 +276,14 @@ def flows(ctx, n_ds, quick):
                     out.append(f)
                     continue
                 res = r[1]
+                # the mask that was applied is the caller's and is left as it was (it may be applied again, to this dataset or
+                # the next one of the same model)
+                same_mask = all(v_ in mask.variables and numpy.array_equal(numpy.asarray(mask[v_].values, dtype='f8'), numpy.asarray(mask_copy[v_].values, dtype='f8'), equal_nan=True)
+                                for v_ in mask_copy.variables)
+                if not same_mask:
+                    f.error = 'apply_clip_mask modified the clip mask it was given: applied again, the mask selects something else'
+                    out.append(f)
+                    continue
                 if history == 'direct':
                     # the mask is the caller's: he blanks it, and asks the same question again - the answer is the mask as before
                     for v_ in mask.data_vars:
